@@ -103,7 +103,10 @@ package scen
 // c15_server.go, the FindPeer merge over two independent hosts in
 // c15_split.go, GetValue under a caller context that ends in mid-search
 // (dual-getvalue-cut: rules getvalue-cut-lan, getvalue-cut-none) in
-// c15_getcut.go.
+// c15_getcut.go; state carried from one operation into the next (keys written
+// earlier and read later with the tables in another state: dual-getvalue-local;
+// provides of inner DHTs configured with EnableOptimisticProvide after they
+// completed lookups: dual-optprovide) in c15_local.go.
 //
 // dual-write-errors. The property quantifies the write clause over "every
 // combination of ... per-DHT results and errors" and over configurations: the
@@ -382,6 +385,8 @@ type c15Op struct {
 	count  int
 	// provide: announce (false = "just kept in the local accounting")
 	announce bool
+	// dual-getvalue-local: index of the key in the run's key pool (keys are reused across operations)
+	keyIdx int
 
 	op              *Op
 	dsFrom          map[string]int // side -> length of that side's datastore log at the call
@@ -428,7 +433,14 @@ type c15World struct {
 	dsArmed map[string]int
 	refused bool // some write met an injected failure on its routed side and reported an error
 	// dual-getvalue-cut: "" | "lan" | "wan" - the side whose pending calls are answered first
-	prio  string
+	prio string
+	// dual-getvalue-local / dual-optprovide (c15_local.go)
+	nKeys      int                  // size of the key pool PutValue / GetValue draw from
+	putBase    int                  // rank of the first value written (later writes rank higher)
+	parkWanGet bool                 // reads of the WAN instance's own datastore are scheduler decisions
+	optSides   string               // inner DHTs created with EnableOptimisticProvide: "both" | "wan" | "lan"
+	estReady   map[string]bool      // side -> that inner DHT reports a network-size estimate
+	left       map[string][]peer.ID // side -> peers that left (removed from that side's table by the harness)
 	u     *simnet.Universe
 	pal   *c15Palette
 	host  *simhost.Host
@@ -531,6 +543,11 @@ func c15Build(s *sim.Sim, faulty bool, focus string) *c15World {
 	alphaW, alphaL := s.Range("alpha-wan", 1, 3), s.Range("alpha-lan", 1, 3)
 	betaW, betaL := s.Range("beta-wan", 1, w.k[c15W]), s.Range("beta-lan", 1, w.k[c15L])
 	hiddenPct := []int{35, 10, 60}[s.Draw("hidden-pct", 3)]
+	if focus == "optprov" {
+		// a healthy network of more than K reachable peers per side (c15_local.go)
+		w.k[c15W], w.k[c15L] = w.k[c15W]+s.Range("k-more-wan", 0, 3), w.k[c15L]+s.Range("k-more-lan", 0, 3)
+		hiddenPct, nW, nL = 0, w.k[c15W]+1+nW%3, w.k[c15L]+1+nL%3
+	}
 
 	idn := 0
 	add := func(name, side string, addrs []ma.Multiaddr) *c15Peer {
@@ -644,7 +661,23 @@ func c15Build(s *sim.Sim, faulty bool, focus string) *c15World {
 			}
 		}
 	}
-	d, err := dual.New(w.host,
+	var extra []dual.Option
+	if focus == "optprov" {
+		// the configuration under which Provide takes the optimistic path: given
+		// to both inner DHTs (dual.DHTOption) or to one of them
+		switch w.optSides = []string{c15B, c15W, c15L}[s.Draw("opt-provide", 3)]; w.optSides {
+		case c15B:
+			extra = append(extra, dual.DHTOption(dht.EnableOptimisticProvide()))
+		default:
+			sideOpts[w.optSides] = append(sideOpts[w.optSides], dht.EnableOptimisticProvide())
+		}
+	}
+	if focus == "local" {
+		// reads of the WAN instance's own datastore park while a GetValue runs
+		// (see c15_local.go, determinism)
+		w.ds[c15W].ParkOp = func(op, _ string) bool { return op == "get" && w.parkWanGet }
+	}
+	d, err := dual.New(w.host, append([]dual.Option{
 		// dual.New applies the caller's options after its own, and ProtocolPrefix
 		// overwrites what ProtocolExtension("/lan") appended: a prefix passed as
 		// a common option would leave both inner DHTs on the same protocol. So
@@ -654,7 +687,7 @@ func c15Build(s *sim.Sim, faulty bool, focus string) *c15World {
 		dual.WanDHTOption(dht.ProtocolPrefix("/sim"), dht.BucketSize(w.k[c15W]), dht.Concurrency(alphaW), dht.Resiliency(betaW), dht.Datastore(w.ds[c15W])),
 		dual.LanDHTOption(dht.ProtocolPrefix("/sim"), dht.ProtocolExtension(dual.LanExtension), dht.BucketSize(w.k[c15L]), dht.Concurrency(alphaL), dht.Resiliency(betaL), dht.Datastore(w.ds[c15L])),
 		dual.WanDHTOption(sideOpts[c15W]...), dual.LanDHTOption(sideOpts[c15L]...),
-	)
+	}, extra...)...)
 	if err != nil {
 		panic(err)
 	}
@@ -671,6 +704,10 @@ func c15Build(s *sim.Sim, faulty bool, focus string) *c15World {
 	tKnownPct := []int{50, 0, 100}[s.Draw("t-known", 3)]
 	if focus == "findpeer" {
 		tKnownPct = 100
+	}
+	if focus == "optprov" {
+		// everybody knows everybody and reports all addresses (warm-up lookups must find K peers)
+		density, tKnownPct = 8, 0
 	}
 	if focus == "getcut" {
 		// every dial is then attributable to one inner DHT (see c15_getcut.go)
@@ -690,6 +727,9 @@ func c15Build(s *sim.Sim, faulty bool, focus string) *c15World {
 			for _, q := range x.knows {
 				// how x renders q's addresses: 0 all, 1 only the non-admissible ones, 2 only public non-relay, 3 none
 				x.refMode[q.ID] = []int{0, 0, 0, 0, 1, 1, 2, 3}[rng.Intn(8)]
+				if focus == "optprov" {
+					x.refMode[q.ID] = 0
+				}
 			}
 			if faulty {
 				switch rng.Intn(10) {
@@ -712,6 +752,11 @@ func c15Build(s *sim.Sim, faulty bool, focus string) *c15World {
 
 	// operations
 	nOps := s.Range("n-ops", 1, 3)
+	if focus == "local" {
+		nOps += s.Range("more-ops", 1, 3)
+		w.nKeys = s.Range("n-keys", 1, 2)
+		w.putBase = []int{20, 2}[s.Draw("put-rank", 2)]
+	}
 	kinds := []string{"provide", "putvalue", "getvalue", "findpeer"}
 	for i := 0; i < nOps; i++ {
 		k := kinds[s.Draw("op-kind", len(kinds))]
@@ -721,6 +766,10 @@ func c15Build(s *sim.Sim, faulty bool, focus string) *c15World {
 			k = map[string]string{"provide": "provide", "putvalue": "putvalue", "getvalue": "provide", "findpeer": "putvalue"}[k]
 		case "getcut":
 			k = "getvalue"
+		case "local":
+			k = map[string]string{"provide": "putvalue", "putvalue": "getvalue", "getvalue": "getvalue", "findpeer": "putvalue"}[k]
+		case "optprov":
+			k = "provide"
 		default:
 			k = focus
 		}
@@ -750,6 +799,15 @@ func c15Build(s *sim.Sim, faulty bool, focus string) *c15World {
 			o.strKey = fmt.Sprintf("/r/c15-%d-%d", useed, i)
 			o.wire = o.strKey
 			o.val = rankValue(5, time.Time{}, o.strKey)
+			if focus == "local" {
+				// keys are reused; every write of a run ranks higher than the ones
+				// before it (a write is never refused as "older than the stored one"),
+				// all of them above or all below the ranks the responders serve
+				o.keyIdx = s.Draw("key", w.nKeys)
+				o.strKey = fmt.Sprintf("/r/c15-%d-k%d", useed, o.keyIdx)
+				o.wire = o.strKey
+				o.val = rankValue(w.putBase+i, time.Time{}, o.strKey)
+			}
 		case "findpeer":
 			o.wire = string(w.t.p.ID)
 		}
@@ -819,7 +877,7 @@ func c15Build(s *sim.Sim, faulty bool, focus string) *c15World {
 	// connection, so WAN seeds are connected while they are added.
 	seedMode := func(l string) int { // 0,1 some; 2 none; 3 all
 		m := s.Draw(l, 4)
-		if focus == "findpeer" && m == 2 {
+		if (focus == "findpeer" && m == 2) || focus == "optprov" {
 			m = 3
 		}
 		if focus == "getcut" && m == 2 && l == "seed-wan" {
@@ -1000,6 +1058,9 @@ func (w *c15World) actions(o *c15Op) []sim.Action {
 			r := p.Data.(*simnet.RPC)
 			side := c15SideOfPark(p)
 			acts = append(acts, sim.Action{ID: p.ID, Do: func() { s.Release(p, w.reply(side, r)) }})
+		case "ds":
+			// dual-getvalue-local: a read of the WAN instance's own datastore (fault-free)
+			acts = append(acts, sim.Action{ID: p.ID, Do: func() { s.Release(p, nil) }})
 		}
 	}
 	if o != nil && o.kind == "findpeer" && w.faulty && !o.op.Done && !o.disconnected && w.connected(w.t.p.ID) {
@@ -1254,6 +1315,7 @@ func (w *c15World) runOp(o *c15Op) bool {
 	if s.Failed() {
 		return false
 	}
+	w.churn(o)
 	o.wanRT, o.lanRT = w.d.WAN.RoutingTable().ListPeers(), w.d.LAN.RoutingTable().ListPeers()
 	// The shared target is the only peer both inner DHTs can dial. If it sits
 	// in both tables and is not connected, both lookups would dial it in the
@@ -1274,6 +1336,7 @@ func (w *c15World) runOp(o *c15Op) bool {
 	if w.focus == "writeerr" {
 		w.armDSFault(o)
 	}
+	w.parkWanGet = w.focus == "local" && o.kind == "getvalue"
 	w.start(o)
 	s.Quiesce()
 	idle := 0
@@ -1331,6 +1394,7 @@ func (w *c15World) runOp(o *c15Op) bool {
 		o.opSteps++
 		s.Choose("next", w.preferSide(o, acts))
 	}
+	w.parkWanGet = false
 	defer func() {
 		o.cancel()
 		s.Quiesce()
@@ -1405,6 +1469,11 @@ func (w *c15World) judgeWrite(o *c15Op) {
 	// that presuppose the inner write got as far as its local record; one on the
 	// other side relaxes nothing
 	mayFail := w.injected(o, want)
+	if o.kind == "provide" {
+		w.optProvProbes(o, want, onWant)
+	} else if w.ownRecord(want, o) != "" {
+		s.Count("probe_putvalue_key_rewritten")
+	}
 	w.refused = w.refused || (mayFail != "" && o.op.Err != nil)
 	w.judgeWriteStore(o, kind, want, other, putsWant, putsOther, mayFail != "")
 	if w.focus == "writeerr" {
@@ -1446,7 +1515,12 @@ func (w *c15World) judgeWrite(o *c15Op) {
 			dials++
 		}
 	}
-	if len(wantRT) > 0 && len(onWant) == 0 && dials == 0 && o.announce && mayFail == "" {
+	if o.kind == "provide" && w.focus == "optprov" && !w.advertisable(want) {
+		// dual-optprovide: a node without any address it may advertise on that
+		// side has nothing to send (an optimistic Provide may not even need a
+		// lookup request before it finds that out); see c15_local.go
+		s.Count("probe_optprov_nothing_to_advertise")
+	} else if len(wantRT) > 0 && len(onWant) == 0 && dials == 0 && o.announce && mayFail == "" {
 		s.Violate("write-no-traffic", "%s with WAN table size %d, LAN table size %d at the call produced no dial and no RPC on the %s DHT (err=%v)",
 			o.kind, len(o.wanRT), len(o.lanRT), strings.ToUpper(want), o.op.Err)
 	}
@@ -1631,6 +1705,15 @@ func (w *c15World) judgeGetValue(o *c15Op) {
 	res, _ := o.op.Result.([]byte)
 	wv, _, winv := w.validDelivered(c15W, o.wanFrom, o, w.wanValid)
 	lv, lsteps, _ := w.validDelivered(c15L, o.lanFrom, o, w.lanValid)
+	// dual-getvalue-local: a valid record an inner DHT holds in its own store
+	// for the key is a result of that DHT's lookup as well (c15_local.go)
+	wOwn, lOwn := w.ownRecord(c15W, o), w.ownRecord(c15L, o)
+	if wOwn != "" {
+		wv = append(wv, wOwn)
+	}
+	if lOwn != "" {
+		lv = append(lv, lOwn)
+	}
 	s.Tracef("done %s getvalue err=%s res=%q wan=%d lan=%d", o.tag, c15ErrText(o.op.Err), res, len(wv), len(lv))
 	in := func(set []string) bool {
 		for _, v := range set {
@@ -1658,7 +1741,7 @@ func (w *c15World) judgeGetValue(o *c15Op) {
 	switch {
 	case wanOK:
 		if o.op.Err != nil || !in(wv) {
-			s.Violate("getvalue-wan", "the WAN lookup received valid value(s) %q but GetValue returned %q, err=%v (LAN received %q)", wv, res, o.op.Err, lv)
+			s.Violate("getvalue-wan", "the WAN lookup received valid value(s) %q (of which from the WAN DHT's own store: %q; WAN table size at the call %d) but GetValue returned %q, err=%v (LAN received %q)", wv, wOwn, len(o.wanRT), res, o.op.Err, lv)
 		}
 		s.Count("probe_getvalue_wan_wins")
 		// did the LAN lookup finish (successfully) before the WAN one?
@@ -1666,7 +1749,7 @@ func (w *c15World) judgeGetValue(o *c15Op) {
 		for _, r := range w.keyRPCs(c15L, o.lanFrom, o.wire, -1) {
 			lanOpen = lanOpen || !r.Done || r.Cancelled
 		}
-		if len(lv) > 0 && !lanOpen && lsteps[len(lsteps)-1] < o.endStep {
+		if len(lsteps) > 0 && !lanOpen && lsteps[len(lsteps)-1] < o.endStep {
 			s.Count("probe_getvalue_wan_wins_lan_finished_first")
 		}
 	case lanOK && cutW:
@@ -1693,7 +1776,8 @@ func (w *c15World) judgeGetValue(o *c15Op) {
 		}
 		s.Count("probe_getvalue_none")
 	}
-	s.State("getvalue wan=%v lan=%v err=%v cut=%v/%v", len(wv) > 0, len(lv) > 0, o.op.Err != nil, cutW, cutL)
+	w.ownRecordProbes(o, wOwn, lOwn, wanOK)
+	s.State("getvalue wan=%v lan=%v err=%v cut=%v/%v own=%v/%v rt=%v", len(wv) > 0, len(lv) > 0, o.op.Err != nil, cutW, cutL, wOwn != "", lOwn != "", len(o.wanRT) > 0)
 }
 
 func c15CutWho(cutW, cutL bool) string {
@@ -1872,6 +1956,9 @@ func (w *c15World) finalProbes() {
 func c15Run(s *sim.Sim, faulty bool, focus string) {
 	s.MaxSteps = 1500
 	w := c15Build(s, faulty, focus)
+	if focus == "optprov" {
+		w.warmUp()
+	}
 	for _, o := range w.ops {
 		if !w.runOp(o) {
 			break
